@@ -19,6 +19,12 @@ package smtp
 // together with b.  Replies belong to RCPT commands; the monitor reads the ground truth on the target's side
 // under the effective address.
 //
+// Recipient variants (4th field of R tokens): a plain, U upper-case domain, u non-ASCII, x syntax error, and the
+// spellings of c03Rcpt that are not the normalized form of the address: c C e I (mixed-case local part), d e I
+// (absolute domain), q (local part that is quoted on the wire), i I j J (A- / U-label of the routed domain's
+// second name dé<j>.example), n k J (NFD / upper-case non-ASCII local part: SMTPUTF8).  c03Spell crosses them
+// with per-recipient failures of the body stage.
+//
 // The P token is the peer address the server sees (the accepted net.Conn is wrapped: IPv4, IPv4-mapped IPv6,
 // IPv6 with and without host bits, link-local with a zone, a unix socket address) and the limits block of the
 // endpoint (concurrency and rate limiters in the all / ip / source scopes); held= is read from the real limiter
@@ -284,7 +290,7 @@ func c03Endpoint(t *testing.T, s *c03Scn, elog *c03ErrLog) (*Endpoint, string) {
 	var b strings.Builder
 	b.WriteString("check {\n vc03\n}\nmodify {\n vc03\n}\n")
 	for j, mask := range s.routes {
-		fmt.Fprintf(&b, "destination d%d.example {\n", j)
+		fmt.Fprintf(&b, "destination d%d.example d\u00e9%d.example {\n", j, j)
 		mask &= 1<<s.nT - 1
 		if mask == 0 {
 			b.WriteString(" reject 556 5.1.1 \"refused by route\"\n")
@@ -411,11 +417,36 @@ func c03Sender(kind, cls, flags, sca string, n int) (addr, params string) {
 func c03Rcpt(id, j, variant, cls, flags, mask string, n int, form byte) string {
 	lp := fmt.Sprintf("r%s-%s-%s-%s-%d", id, cls, flags, mask, n)
 	dom := "d" + j + ".example"
+	// spellings (c03Spellings): the local part is not lower case / not NFC / quoted (the suffix sits in the <n>
+	// field, which no fault decoder reads), the domain is upper case / absolute / the A- or U-label of the
+	// second name of the routed domain
 	switch variant {
 	case "U":
 		dom = strings.ToUpper(dom)
 	case "u":
 		lp += "é"
+	case "c":
+		lp += "Qz"
+	case "q": // a local part that has to be quoted on the wire (c03Wire); the server sees it unquoted
+		lp += " Qz"
+	case "C":
+		lp, dom = lp+"Qz", strings.ToUpper(dom)
+	case "d":
+		dom += "."
+	case "e":
+		lp, dom = lp+"Qz", strings.ToUpper(dom)+"."
+	case "n": // NFD
+		lp += "Ee\u0301"
+	case "k": // upper case, non-ASCII
+		lp += "\u00c9"
+	case "i":
+		dom = "xn--d" + j + "-bja.example"
+	case "I":
+		lp, dom = lp+"Qz", "XN--D"+j+"-BJA.EXAMPLE."
+	case "j":
+		dom = "d\u00e9" + j + ".example"
+	case "J":
+		lp, dom = lp+"Q\u00c9", "D\u00c9"+j+".EXAMPLE"
 	}
 	switch form {
 	case '1':
@@ -427,6 +458,22 @@ func c03Rcpt(id, j, variant, cls, flags, mask string, n int, form byte) string {
 	}
 	return lp + "@" + dom
 }
+
+// c03Wire is the RCPT TO argument as it is written on the wire: a local part with a space is a quoted-string
+// (go-smtp hands the session the unquoted mailbox, which is also the key of its LMTP statuses)
+func c03Wire(addr string) string {
+	at := strings.LastIndexByte(addr, '@')
+	if at < 0 || !strings.Contains(addr[:at], " ") {
+		return addr
+	}
+	return `"` + addr[:at] + `"` + addr[at:]
+}
+
+// spellings of a recipient address that are not its normalized form, ASCII ones and ones that need SMTPUTF8
+const (
+	c03SpellASCII = "cCdeqiI"
+	c03SpellUTF8  = "nkjJ"
+)
 
 // Alias forms of a recipient family (tokens "R:…:<form>" and "R+<form>"): 0 the mailbox itself, 1 and b two
 // aliases of it, 2 an alias of alias 1.  The scripted modifier (vc03.Rewrite) rewrites 2 -> 1 -> 0 and b -> 0,
@@ -679,14 +726,14 @@ func c03Run(t *testing.T, s *c03Scn, addr string) []c03TokRes {
 					lastEff, lastRoute = c03Canon(lastRcpt), -1
 				}
 				res[i].addr, res[i].eff, res[i].route = lastRcpt, lastEff, lastRoute
-				simple = "RCPT TO:<" + lastRcpt + ">"
+				simple = "RCPT TO:<" + c03Wire(lastRcpt) + ">"
 			}
 		case tok == "R=":
 			if lastRcpt == "" {
 				simple = "NOOP"
 			} else {
 				res[i].addr, res[i].eff, res[i].route = lastRcpt, lastEff, lastRoute
-				simple = "RCPT TO:<" + lastRcpt + ">"
+				simple = "RCPT TO:<" + c03Wire(lastRcpt) + ">"
 			}
 		case strings.HasPrefix(tok, "R+") && c03FormOK(tok[2:]):
 			// another member of the family of the address token right before this one
@@ -695,7 +742,7 @@ func c03Run(t *testing.T, s *c03Scn, addr string) []c03TokRes {
 			} else {
 				lastRcpt, lastEff, lastRoute = fam.member(s, tok[2])
 				res[i].addr, res[i].eff, res[i].route = lastRcpt, lastEff, lastRoute
-				simple = "RCPT TO:<" + lastRcpt + ">"
+				simple = "RCPT TO:<" + c03Wire(lastRcpt) + ">"
 			}
 		}
 		if simple != "" {
@@ -891,12 +938,18 @@ func c03Oracle() string {
 // ---------------------------------------------------------------- the property, evaluated on the real run
 
 // the endpoint hands recipients to the pipeline with the domain case-folded
+// (an independent statement of address.CleanDomain for the domains of this harness: the local part is kept as
+// the client sent it, the domain becomes the lower-case U-label form, a trailing dot stays)
 func c03Canon(a string) string {
 	at := strings.LastIndexByte(a, '@')
 	if at < 0 {
 		return a
 	}
-	return a[:at] + strings.ToLower(a[at:])
+	dom := strings.ToLower(a[at+1:])
+	for j := 0; j < 3; j++ {
+		dom = strings.Replace(dom, fmt.Sprintf("xn--d%d-bja.", j), fmt.Sprintf("d\u00e9%d.", j), 1)
+	}
+	return a[:at] + "@" + dom
 }
 
 func c03Monitor(out *vh.Out, s *c03Scn, line string, res []c03TokRes, leakA, leakB int, snap []vc03.LimBucket) {
@@ -1296,6 +1349,55 @@ func c03Alias(r *vh.Rng, s *c03Scn) {
 	}
 }
 
+// c03Spell respells recipients of the finished script: the RCPT TO argument is not the normalized form of the
+// address (local part not lower case / not NFC / quoted, domain upper case / absolute / A- or U-label of the
+// second name of the routed domain), crossed with per-recipient failures of the body stage for exactly these
+// recipients.  Every status of a recipient has to find its way back to the RCPT command it belongs to.
+func c03Spell(r *vh.Rng, s *c03Scn) {
+	pct := 18
+	if s.lmtp {
+		pct = 45
+	}
+	utf8 := false
+	boost := "" // ids of respelled recipients: the next message of the transaction fails for them
+	for i, t := range s.toks {
+		bare := strings.TrimSuffix(t, "~")
+		tilde := t[len(bare):]
+		f := strings.Split(bare, ":")
+		switch {
+		case f[0] == "M" && len(f) == 5:
+			if f[1] == "a" && s.lmtp && r.Chance(12) {
+				f[1] = "8"
+				s.toks[i] = strings.Join(f, ":") + tilde
+			}
+			utf8 = f[1] == "8" || f[1] == "I"
+			boost = ""
+		case f[0] == "R" && (len(f) == 7 || len(f) == 8) && f[3] == "a" && r.Chance(pct):
+			set := c03SpellASCII
+			if utf8 && r.Chance(60) {
+				set = c03SpellUTF8
+			}
+			f[3] = string(set[r.Intn(len(set))])
+			s.toks[i] = strings.Join(f, ":") + tilde
+			if r.Chance(70) && !strings.Contains(boost, f[1]) {
+				boost += f[1]
+			}
+		case boost != "" && (f[0] == "D" || f[0] == "Bf" || f[0] == "Bp") && len(f) == 6 && f[1] == "o":
+			if r.Chance(25) {
+				f[4] = strconv.Itoa(1 + r.Intn(1<<s.nT-1))
+			} else {
+				for _, id := range boost {
+					if !strings.ContainsRune(f[5], id) {
+						f[5] += string(id)
+					}
+				}
+			}
+			s.toks[i] = strings.Join(f, ":") + tilde
+			boost = ""
+		}
+	}
+}
+
 func c03GenScn(r *vh.Rng) *c03Scn {
 	s := &c03Scn{lmtp: r.Chance(45), deferred: r.Chance(60)}
 	s.nT = 1 + r.Intn(3)
@@ -1331,6 +1433,7 @@ func c03GenScn(r *vh.Rng) *c03Scn {
 			}
 		}
 		c03Alias(r, s)
+		c03Spell(r, s)
 	}(r.Fork())
 	if r.Chance(80) {
 		// a plausible client, then damaged
@@ -1479,6 +1582,9 @@ func c03One(t *testing.T, out *vh.Out, s *c03Scn) {
 	line := s.line()
 	c03Log.Lock()
 	c03Monitor(out, s, line, res, leakA, leakB, snap)
+	if panics != 0 {
+		out.Violation("C03/panic", line, fmt.Sprintf("%d panic(s) inside the server's session handling were recovered by go-smtp; first log lines: %s", panics, strings.Join(elines, " // ")))
+	}
 	obs := c03Observe(s, res, leakA, leakB, panics, snap)
 	oracle := c03Oracle()
 	nd := len(c03Log.Dels)
@@ -1496,6 +1602,9 @@ func c03One(t *testing.T, out *vh.Out, s *c03Scn) {
 		tok := strings.TrimSuffix(r.tok, "~")
 		kind := strings.Split(tok, ":")[0]
 		out.Stat("tok." + kind + "." + c03Codes(r))
+		if f := strings.Split(tok, ":"); f[0] == "R" && len(f) >= 7 {
+			out.Stat("rcpt.spelling." + f[3] + "." + c03Codes(r))
+		}
 	}
 	seenMail := false
 	for _, r := range res {
